@@ -95,6 +95,10 @@ type hub struct {
 	mu     sync.Mutex
 	subs   map[string]map[peer.ID][]*fakeSub
 	topics []string // every topic ever subscribed, in order
+	// rendezvous > 1: a Subscribe call waits (up to 40 ms) until that many Subscribe calls of the same peer
+	// are in progress, so that overlapping Connect calls really overlap inside the lower layer
+	rendezvous int
+	inSub      map[peer.ID]int
 }
 
 func newHub() *hub { return &hub{subs: map[string]map[peer.ID][]*fakeSub{}} }
@@ -178,6 +182,21 @@ func (p *fakePubSub) Publish(ctx context.Context, topic string, data []byte) err
 func (p *fakePubSub) Subscribe(ctx context.Context, topic string, _ ...options.PubSubSubscribeOption) (coreiface.PubSubSubscription, error) {
 	s := newFakeSub()
 	p.hub.mu.Lock()
+	if need := p.hub.rendezvous; need > 1 {
+		if p.hub.inSub == nil {
+			p.hub.inSub = map[peer.ID]int{}
+		}
+		p.hub.inSub[p.id]++
+		p.hub.mu.Unlock()
+		world.WaitFor(func() bool {
+			p.hub.mu.Lock()
+			defer p.hub.mu.Unlock()
+			return p.hub.inSub[p.id] >= need
+		}, 40*time.Millisecond)
+		time.Sleep(2 * time.Millisecond)
+		p.hub.mu.Lock()
+		p.hub.inSub[p.id]--
+	}
 	if p.hub.subs[topic] == nil {
 		p.hub.subs[topic] = map[peer.ID][]*fakeSub{}
 	}
@@ -384,6 +403,9 @@ type SendC20 struct {
 type CaseC20b struct {
 	IDs   [2]int    `json:"ids"`
 	Sends []SendC20 `json:"sends"`
+	// Overlap: 2 or 3 Connect calls per end for the same peer start at the same time (two or three stores of
+	// one instance meeting the same peer), 0 = one call per end
+	Overlap int `json:"overlap,omitempty"`
 }
 
 func genC20b(rt *rapid.T) CaseC20b {
@@ -397,6 +419,7 @@ func genC20b(rt *rapid.T) CaseC20b {
 	for i := 0; i < n; i++ {
 		c.Sends = append(c.Sends, SendC20{From: rapid.IntRange(0, 1).Draw(rt, "from"), Size: rapid.SampledFrom([]int{0, 1, 100, 16384, 65536}).Draw(rt, "size")})
 	}
+	c.Overlap = rapid.SampledFrom([]int{0, 2, 2, 3}).Draw(rt, "overlap")
 	return c
 }
 
@@ -417,12 +440,21 @@ func execC20b(c CaseC20b) *Outcome {
 		defer ch.Close()
 	}
 	// both ends connect to each other (concurrently, as two stores would)
-	errs := make(chan error, 2)
+	calls := 1
+	if c.Overlap > 1 {
+		calls = c.Overlap
+		h.mu.Lock()
+		h.rendezvous = calls
+		h.mu.Unlock()
+	}
+	errs := make(chan error, 2*calls)
 	for i := 0; i < 2; i++ {
-		go func(i int) {
-			// (the subscription lives as long as the context given to Connect: callers pass their store's context)
-			errs <- chs[i].Connect(ctx, ids[1-i])
-		}(i)
+		for k := 0; k < calls; k++ {
+			go func(i int) {
+				// (the subscription lives as long as the context given to Connect: callers pass their store's context)
+				errs <- chs[i].Connect(ctx, ids[1-i])
+			}(i)
+		}
 	}
 	connected := 0
 	timeout := time.After(15 * time.Second)
@@ -433,8 +465,32 @@ func execC20b(c CaseC20b) *Outcome {
 		defer h.mu.Unlock()
 		return append([]string{}, h.topics...)
 	}
+	distinct := func(ts []string) []string {
+		seen := map[string]bool{}
+		var out []string
+		for _, t := range ts {
+			if !seen[t] {
+				seen[t] = true
+				out = append(out, t)
+			}
+		}
+		return out
+	}
+	subscribedEnds := func() int {
+		h.mu.Lock()
+		defer h.mu.Unlock()
+		ends := map[peer.ID]bool{}
+		for _, m := range h.subs {
+			for id, l := range m {
+				if len(l) > 0 {
+					ends[id] = true
+				}
+			}
+		}
+		return len(ends)
+	}
 wait:
-	for connected < 2 {
+	for connected < 2*calls {
 		select {
 		case err := <-errs:
 			if err != nil {
@@ -442,23 +498,26 @@ wait:
 			}
 			connected++
 		case <-tick.C:
-			if t := topicsNow(); len(t) == 2 && t[0] != t[1] {
+			if t := distinct(topicsNow()); len(t) > 1 {
 				return fail("the two ends derived different channel names: %v", t)
 			}
 		case <-timeout:
 			break wait
 		}
 	}
-	topics := topicsNow()
-	if len(topics) == 2 && topics[0] != topics[1] {
+	topics := distinct(topicsNow())
+	if len(topics) > 1 {
 		return fail("the two ends derived different channel names: %v", topics)
 	}
-	if connected < 2 {
-		if len(topics) != 2 {
+	if connected < 2*calls {
+		if subscribedEnds() != 2 {
 			return &Outcome{Inconclusive: true}
 		}
-		return fail("both ends subscribed to %q but Connect did not return within 15 s", topics[0])
+		return fail("both ends subscribed to %q but %d of %d Connect calls did not return within 15 s", topics[0], 2*calls-connected, 2*calls)
 	}
+	h.mu.Lock()
+	h.rendezvous = 0
+	h.mu.Unlock()
 	var want [2][][]byte
 	both := map[int]bool{}
 	for i, s := range c.Sends {
@@ -495,6 +554,9 @@ wait:
 		ems[i].mu.Unlock()
 	}
 	o.NonTrivial = len(both) == 2
+	if calls > 1 {
+		o.Labels = append(o.Labels, "overlapping-connects")
+	}
 	big := false
 	for _, s := range c.Sends {
 		if s.Size >= 16384 {
